@@ -1,5 +1,6 @@
 import PeroVerif.Drv.Common
 import PeroVerif.Model.Assign
+import PeroVerif.Model.Clip
 open Lean Drv
 
 namespace Drv.C11
@@ -27,6 +28,13 @@ def handle : Handler := fun j => do
     let rots ← getNatList j "rots"
     let ids := passIds (← getNatList j "rid") rots (fun rot => placed.getD (rots.findIdx (· = rot)) [])
     return ok (jList jNats ids)
+  | "clip" =>
+    match ← getRatList j "rect" with
+    | [x0, y0, x1, y1] =>
+      let pts ← getRatMat j "pts"
+      let pieces := Clip.clipPolyline ⟨x0, y0, x1, y1⟩ (pts.map fun p => (p.getD 0 0, p.getD 1 0))
+      return ok (jList (jList fun (p : Clip.Pt) => Json.arr #[jRat p.1, jRat p.2]) pieces)
+    | _ => throw "rect"
   | _ => throw s!"C11: unknown op {op}"
 
 end Drv.C11
